@@ -15,7 +15,7 @@ import (
 func init() {
 	register("C10", PropCheck{
 		Title:      "Every storage backend behaves as the same keyed map",
-		Explain:    "Agreement clauses, decided for each db.Db implementation of the library (memory, filesystem, Postgres): (R1) every storage mutation in Put is only reached on the true edge of CheckPut(); (R2) baseDb.seal is only ever stored true, and every store to baseDb.lock that can remove a lock is behind the seal==false edge; (R3) Put and Get derive their storage keys from DbBase.ToKey applied to the caller's key, and every path of Get to its not-found return has passed a lookup that uses the Default key (translation-then-default fallback present); (R4) the miss return of every Get is built with db.NewErrNotFound; (R5) the data-type predicates: session prefix exactly for STATE and USERDATA, language suffix exactly for MENU, TEMPLATE and STATICLOAD (constant comparison/mask extracted and evaluated over the DATATYPE_* constants); (R6) every db.Db.Get made by DbResource is preceded by mustSafe(), which panics unless Safe(); (R7) the sticky context setters SetSession/SetPrefix/SetLanguage store their argument on every path (no path keeps the previous context); (R9) the filesystem back end's listing examines every directory entry: the listing cursor is only ever assigned the full os.ReadDir result or itself re-sliced from index 1 (added after seeded change C10-C, which seeks into the listing with a binary search over on-disk names); (R10) the filesystem back end answers Get from the store: every value a success return hands out is the result of a file read made in that call, never a memoised copy kept beside the store (added after seeded change C10-H, a read cache keyed by the first probed path). (R11) a listing leaves the handle's selections alone: no SetLanguage/SetPrefix/SetSession in a back end's Dump or the functions only it calls (added after seeded change C10-I; the rule reported the pinned postgres Dump, a genuine defect repaired in /repo). (R12) baseDb.pfx/sid/lang are stored only in Set... methods and constructors - a lookup does not remember anything on the handle; (R13) the filesystem back end encodes and decodes binary keys with the same base64 alphabet (added after seeded changes C10-K and C10-L). R8 also requires every value a memory-backend Get hands out to be the value component of a comma-ok lookup behind its own ok edge - a record found is not a value found (added after seeded change C10-N). (R14) the filesystem listing keeps its progress on the handle; every field that the listing family (functions touching the directory cursor, and their package callees) stores is stored by Dump on every path before it is read or a dumper is handed out (added after seeded change C10-M, a 'matching' flag that survived an undrained dump).",
+		Explain:    "Agreement clauses, decided for each db.Db implementation of the library (memory, filesystem, Postgres): (R1) every storage mutation in Put is only reached on the true edge of CheckPut(); (R2) baseDb.seal is only ever stored true, and every store to baseDb.lock that can remove a lock is behind the seal==false edge; (R3) Put and Get derive their storage keys from DbBase.ToKey applied to the caller's key, and every path of Get to its not-found return has passed a lookup that uses the Default key (translation-then-default fallback present); (R4) the miss return of every Get is built with db.NewErrNotFound; (R5) the data-type predicates: session prefix exactly for STATE and USERDATA, language suffix exactly for MENU, TEMPLATE and STATICLOAD (constant comparison/mask extracted and evaluated over the DATATYPE_* constants); (R6) every db.Db.Get made by DbResource is preceded by mustSafe(), which panics unless Safe(); (R7) the sticky context setters SetSession/SetPrefix/SetLanguage store their argument on every path (no path keeps the previous context); (R9) the filesystem back end's listing examines every directory entry: the listing cursor is only ever assigned the full os.ReadDir result or itself re-sliced from index 1 (added after seeded change C10-C, which seeks into the listing with a binary search over on-disk names); (R10) the filesystem back end answers Get from the store: every value a success return hands out is the result of a file read made in that call, never a memoised copy kept beside the store (added after seeded change C10-H, a read cache keyed by the first probed path). (R11) a listing leaves the handle's selections alone: no SetLanguage/SetPrefix/SetSession in a back end's Dump or the functions only it calls (added after seeded change C10-I; the rule reported the pinned postgres Dump, a genuine defect repaired in /repo). (R12) baseDb.pfx/sid/lang are stored only in Set... methods and constructors - a lookup does not remember anything on the handle; (R13) the filesystem back end encodes and decodes binary keys with the same base64 alphabet (added after seeded changes C10-K and C10-L). R8 also requires every value a memory-backend Get hands out to be the value component of a comma-ok lookup behind its own ok edge - a record found is not a value found (added after seeded change C10-N). (R14) the filesystem listing keeps its progress on the handle; every field that the listing family (functions touching the directory cursor, and their package callees) stores is stored by Dump on every path before it is read or a dumper is handed out (added after seeded change C10-M, a 'matching' flag that survived an undrained dump). (R15) no value stored to LookupKey.Translation is an append onto the value of LookupKey.Default (or the reverse): the two keys share no memory, the filesystem back end rewrites the first byte of each in place (added after seeded change C10-O). (R16) = C11 R8: scratch files are os.CreateTemp results - a name derived from the record is itself a possible record name (added after C10-P).",
 		NotDecided: "read-your-writes over histories, Dump listing beyond the cursor clause R9 (which entries match, their order), interleavings of sticky context switches, text versus binary values - value- and history-level; the gdbm backend is not analysable here (cgo header missing) and is outside the property's backend list.",
 		Run:        runC10,
 	})
